@@ -222,3 +222,55 @@ func cmdCtx(args []string) {
 	after := settle(base)
 	report("leak-cancelled", after <= base, fmt.Sprintf("goroutines_before=%d after=%d", base, after))
 }
+
+// cmdFlags: exhaustive evaluation of the public flag / register accessors of the REAL code against the property's
+// definition (support for C16's search; the proof is the Lean theorem).
+func cmdFlags() {
+	bad := map[string]int{}
+	first := func(kind, msg string) {
+		if bad[kind] == 0 {
+			fmt.Println("flag " + kind + " " + msg)
+		}
+		bad[kind]++
+	}
+	consts := []struct {
+		name string
+		got  z80.Flag
+		want uint8
+	}{{"C", z80.FlagC, 0x01}, {"N", z80.FlagN, 0x02}, {"PV", z80.FlagPV, 0x04}, {"3", z80.Flag3, 0x08}, {"H", z80.FlagH, 0x10}, {"5", z80.Flag5, 0x20}, {"Z", z80.FlagZ, 0x40}, {"S", z80.FlagS, 0x80}}
+	for _, c := range consts {
+		if uint8(c.got) != c.want {
+			first("const", fmt.Sprintf("name=%s real=%02x want=%02x", c.name, uint8(c.got), c.want))
+		}
+	}
+	for m := 0; m < 256; m++ {
+		for f := 0; f < 256; f++ {
+			a := uint8((m*7 + f*13 + 5) % 256)
+			g := z80.GPR{AF: z80.Register{Hi: a, Lo: uint8(f)}, BC: z80.Register{Hi: 0x12, Lo: 0x34}}
+			if got, want := g.GetFlag(z80.Flag(m)), uint8(f)&uint8(m) != 0; got != want {
+				first("get", fmt.Sprintf("mask=%02x F=%02x real=%v want=%v", m, f, got, want))
+			}
+			if g.AF.Hi != a || g.AF.Lo != uint8(f) {
+				first("get", fmt.Sprintf("mask=%02x F=%02x GetFlag altered AF", m, f))
+			}
+			s := g
+			s.SetFlag(z80.Flag(m))
+			if s.AF.Lo != uint8(f)|uint8(m) || s.AF.Hi != a || s.BC != g.BC {
+				first("set", fmt.Sprintf("mask=%02x F=%02x A=%02x real=F:%02x,A:%02x want=F:%02x,A:%02x", m, f, a, s.AF.Lo, s.AF.Hi, uint8(f)|uint8(m), a))
+			}
+			s = g
+			s.ResetFlag(z80.Flag(m))
+			if s.AF.Lo != uint8(f)&^uint8(m) || s.AF.Hi != a || s.BC != g.BC {
+				first("reset", fmt.Sprintf("mask=%02x F=%02x A=%02x real=F:%02x,A:%02x want=F:%02x,A:%02x", m, f, a, s.AF.Lo, s.AF.Hi, uint8(f)&^uint8(m), a))
+			}
+		}
+	}
+	for v := 0; v < 65536; v++ {
+		var r z80.Register
+		r.SetU16(uint16(v))
+		if r.U16() != uint16(v) || r.Hi != uint8(v>>8) || r.Lo != uint8(v) {
+			first("u16", fmt.Sprintf("value=%04x real=U16:%04x,Hi:%02x,Lo:%02x", v, r.U16(), r.Hi, r.Lo))
+		}
+	}
+	fmt.Printf("done get=%d set=%d reset=%d u16=%d const=%d pairs=65536 values=65536\n", bad["get"], bad["set"], bad["reset"], bad["u16"], bad["const"])
+}
